@@ -1,4 +1,5 @@
 import Proofs.C18
+import Proofs.C18Sem
 /-!
 # C18 — coverage instrumentation is transparent and its counts are exact
 
@@ -72,22 +73,82 @@ theorem blocks_only_statements (bodies : List Stmts) (h : WellFormed bodies) (x 
   rw [List.count_eq_zero_of_not_mem hx] at this
   exact absurd (List.count_pos_iff.2 hmem) (by omega)
 
-/-! ## the dynamic statements (control-flow semantics `execStmts`): stated in full, not yet proved — they are exercised by the
-driver's self-check on random bodies and scripts, and on the real binary by the twin-program oracle. -/
+/-! ## the dynamic clauses, over the scripted control-flow semantics `execStmts`
 
-/-- running the annotated body takes the same decisions, ends the same way, and starts the same statements in the same order -/
-def TraceTransparent : Prop :=
-  ∀ (ss : Stmts), Stmts.NF true ss = true → hasCounter ss = false → ∀ (sc : List Nat) (fuel : Nat) (r : Run),
-    execStmts fuel ss sc [] = some r →
-    ∃ fuel' r', execStmts fuel' (annStmts ⟨[]⟩ ss).2 sc [] = some r' ∧ r'.sig = r.sig ∧ r'.script = r.script ∧
-      eraseTrace r'.trace = r.trace
+A script fixes the outcome of every condition evaluation (and the length of every `for … in`), so "for every script" is "for every
+behaviour of the expressions"; the frame assumption is that counter statements take no decision (they touch only `__COVER`). -/
 
-/-- counter k fires exactly as often as the first statement of block k starts -/
-def CountExact : Prop :=
-  ∀ (ss : Stmts), Stmts.NF true ss = true → hasCounter ss = false → (stmtsIds ss).Nodup → ∀ (sc : List Nat) (fuel : Nat) (r : Run),
-    execStmts fuel (annStmts ⟨[]⟩ ss).2 sc [] = some r →
-    ∀ k b, (annStmts ⟨[]⟩ ss).1.blocks[k]? = some b → ∀ i, b.ids.head? = some i →
-      countCtr (k + 1) r.trace = countStart i (eraseTrace r.trace)
+/-- Transparency. Whenever the annotated body runs to completion, the original body — same script, same fuel — runs to completion
+with the same signal (normal / break / continue / next / exit / return), consumes the script identically, and starts the same
+statements in the same order: the trace of the annotated run with the counter events removed *is* the trace of the original. -/
+theorem transparent (st : AnnState) (ss : Stmts) (hnf : Stmts.NF true ss = true) (hc : hasCounter ss = false)
+    (sc : List Nat) (fuel : Nat) (r : Run) (h : execStmts fuel (annStmts st ss).2 sc [] = some r) :
+    execStmts fuel ss sc [] = some ⟨r.sig, r.script, eraseTrace r.trace⟩ := by
+  have := (erase_sim fuel).stmts _ _ _ _ h
+  rwa [annotate_preserves_shape_body st ss hnf hc] at this
+
+/-- fuel is only a bound: more fuel never changes a result -/
+theorem fuel_monotone (ss : Stmts) (sc : List Nat) (tr : List Ev) (fuel extra : Nat) (r : Run)
+    (h : execStmts fuel ss sc tr = some r) : execStmts (fuel + extra) ss sc tr = some r := by
+  induction extra with
+  | zero => exact h
+  | succ n ih => exact (exec_mono _).stmts _ _ _ _ ih
+
+/-- Exactness, per body of a program. `B` is the final block list of the whole program (`st` = annotator state before this body,
+`post` = blocks added after it); for every block `kk` of `B` whose first statement is `i` — identifiers being unique in `B` —
+any run of the annotated body, from any trace, adds as many firings of counter `kk + 1` as starts of statement `i`. -/
+theorem count_exact_body (st : AnnState) (ss : Stmts) (hc : hasCounter ss = false) (post : List Block) (B : List Block)
+    (hB : B = (annStmts st ss).1.blocks ++ post) (hnodup : ∀ x, (flatIds B).count x ≤ 1)
+    (kk i : Nat) (b : Block) (hb : B[kk]? = some b) (hi : b.ids.head? = some i)
+    (sc : List Nat) (tr : List Ev) (fuel : Nat) (r : Run) (h : execStmts fuel (annStmts st ss).2 sc tr = some r) :
+    countCtr (kk + 1) r.trace + countStart i tr = countStart i r.trace + countCtr (kk + 1) tr := by
+  have T : Target kk i B := ⟨⟨b, hb, hi⟩, hnodup⟩
+  have hbal := annStmts_bal T st ss hc post hB
+  have := (balance_sim (kk + 1) i fuel).stmts _ false _ _ _ hbal h
+  simpa [Gain] using this
+
+/-- Exactness (count mode). For a body with distinct statement identifiers: when the annotated body has run, the value of
+`__COVER[kk + 1]` — the number of firings of counter `kk + 1` — equals the number of times the first statement of block `kk`
+began executing in the run of the ORIGINAL body (same script, same fuel, same outcome). -/
+theorem count_exact (ss : Stmts) (hnf : Stmts.NF true ss = true) (hc : hasCounter ss = false) (hd : (stmtsIds ss).Nodup)
+    (sc : List Nat) (fuel : Nat) (r : Run) (h : execStmts fuel (annStmts ⟨[]⟩ ss).2 sc [] = some r)
+    (kk i : Nat) (b : Block) (hb : (annStmts ⟨[]⟩ ss).1.blocks[kk]? = some b) (hi : b.ids.head? = some i) :
+    ∃ r0, execStmts fuel ss sc [] = some r0 ∧ r0.sig = r.sig ∧ countCtr (kk + 1) r.trace = countStart i r0.trace := by
+  refine ⟨_, transparent ⟨[]⟩ ss hnf hc sc fuel r h, rfl, ?_⟩
+  obtain ⟨nb, h1, c⟩ := annStmts_blocks ⟨[]⟩ ss hc
+  simp only [List.nil_append] at h1
+  have hn : ∀ x, (flatIds (annStmts ⟨[]⟩ ss).1.blocks).count x ≤ 1 := by
+    intro x; rw [h1, c x]; exact List.nodup_iff_count.1 hd x
+  have := count_exact_body ⟨[]⟩ ss hc [] _ (by simp) hn kk i b hb hi sc [] fuel r h
+  simp only [countStart, countCtr, List.count_nil, Nat.add_zero] at this
+  show countCtr (kk + 1) r.trace = countStart i (eraseTrace r.trace)
+  rw [countStart_eraseTrace]; simpa [countStart, countCtr] using this
+
+/-- the value `__COVER[k]` holds in set mode after a run: the statement `__COVER[k] = 1` has been executed or not -/
+def setValue (k : Nat) (tr : List Ev) : Nat := if countCtr k tr = 0 then 0 else 1
+
+/-- Set mode: the reported value is 1 exactly when the count-mode count — the number of starts of the block's first statement in
+the original run — is non-zero. -/
+theorem set_is_nonzero (ss : Stmts) (hnf : Stmts.NF true ss = true) (hc : hasCounter ss = false) (hd : (stmtsIds ss).Nodup)
+    (sc : List Nat) (fuel : Nat) (r : Run) (h : execStmts fuel (annStmts ⟨[]⟩ ss).2 sc [] = some r)
+    (kk i : Nat) (b : Block) (hb : (annStmts ⟨[]⟩ ss).1.blocks[kk]? = some b) (hi : b.ids.head? = some i) :
+    ∃ r0, execStmts fuel ss sc [] = some r0 ∧ (setValue (kk + 1) r.trace = 1 ↔ countStart i r0.trace ≠ 0) := by
+  obtain ⟨r0, h0, _, hcnt⟩ := count_exact ss hnf hc hd sc fuel r h kk i b hb hi
+  refine ⟨r0, h0, ?_⟩
+  unfold setValue; rw [hcnt]
+  by_cases hz : countStart i r0.trace = 0 <;> simp [hz]
+
+/-- Converse of `transparent`: whenever the original body runs to completion, so does the annotated body (with fuel for the extra
+statements), with the same signal, the same use of the script, and — counters removed — the same trace. Together with
+`transparent`: the two programs terminate on exactly the same scripts and are indistinguishable apart from the counters. -/
+theorem transparent_rev (st : AnnState) (ss : Stmts) (hnf : Stmts.NF true ss = true) (hc : hasCounter ss = false)
+    (sc : List Nat) (fuel : Nat) (r0 : Run) (h : execStmts fuel ss sc [] = some r0) :
+    ∃ r, execStmts (fuel + sizeL (annStmts st ss).2) (annStmts st ss).2 sc [] = some r ∧
+      r.sig = r0.sig ∧ r.script = r0.script ∧ eraseTrace r.trace = r0.trace := by
+  rw [← annotate_preserves_shape_body st ss hnf hc] at h
+  obtain ⟨r, hr, he⟩ := (rev_sim fuel).stmts _ sc [] r0 [] rfl h _ (Nat.le_refl _)
+  obtain ⟨g1, g2, g3⟩ := eraseRun_eq he
+  exact ⟨r, hr, g1, g2, g3⟩
 
 /-! ## non-vacuity and instances -/
 
@@ -101,7 +162,9 @@ example : WellFormed [sample, .nil true, .nil false] := by
 example : ((annotate [sample, .nil true, .nil false] ⟨[]⟩).1.blocks.map (·.ids)) = [[5], [6], [3, 4], [7], [1, 2], [8]] := by decide
 example : (annotate [sample, .nil true, .nil false] ⟨[]⟩).2.map eraseStmts = [sample, .nil true, .nil false] := by rfl
 example : (stmtsIds sample).Nodup := by decide
--- instances of the two unproved statements: script 1,1,0 = loop once (taking the `continue` branch), then leave
+-- the hypotheses of `transparent` / `count_exact` are satisfiable: script 1,1,0 = loop once (taking the `continue` branch), then leave
+example : Stmts.NF true sample = true ∧ hasCounter sample = false := by decide
+example : (execStmts 60 (annStmts ⟨[]⟩ sample).2 [1, 1, 0] []).isSome = true := by decide
 example : (execStmts 60 (annStmts ⟨[]⟩ sample).2 [1, 1, 0] []).map (fun r => (r.sig, r.script, eraseTrace r.trace)) =
     (execStmts 60 sample [1, 1, 0] []).map (fun r => (r.sig, r.script, r.trace)) := by decide
 example : (execStmts 60 (annStmts ⟨[]⟩ sample).2 [1, 1, 0] []).map (fun r => (List.range 6).map fun k => countCtr (k + 1) r.trace) =
